@@ -1094,7 +1094,7 @@ def oracle_invisible(r: Runner) -> Optional[str]:
 # ---------------------------------------------------------------- generators
 
 QKEYS = ["a", "b", "c"]
-QVALS = [2, 3, "x", "y", None, [2, 3], "2"]
+QVALS = [2, 3, "x", "y", None, [2, 3], "2", 1, True, 1.0, 0, False]   # equal under == but different values: 1, True, 1.0 (F48)
 MDVALS = [{}, {"m": 2}, {"m": "x", "n": [2, 3]}, {}, {"neg": -4}, "notadict", [], {"d": {}}]
 TERMS = [("AsPandasDF", {"columns": ["a", "b"]}), ("AsPandasDF", {"columns": "c"}), ("AsAwkwardArray", {}),
          ("AsROOTTTree", {"filename": "f.root", "treename": "t", "columns": ["x"]}),
